@@ -9,11 +9,12 @@
    basis values of that direction at t IS r.  Sections are the instance r = unit row (first / last index) at the
    start / end of a clamped direction; const_par_curve is the instance r = row i of the accumulated knot insertion
    matrix. *)
-From Coq Require Import List Arith Reals Lra Lia Bool ZArith.
-From SplipyModel Require Import Spec.BSpline Model.Num Model.BasisDef Model.BasisEval Model.Tensor Model.Obj Model.KnotInsert Model.Section Model.Factory
+From Coq Require Import List Arith Reals Lra Lia Bool ZArith Permutation QArith.
+From SplipyModel Require Import Spec.BSpline Spec.Boehm Model.Num Model.BasisDef Model.BasisEval Model.Tensor Model.Obj Model.KnotInsert Model.Section Model.Factory
+  Model.Tol Model.Solve Model.Interp Model.ConstPar Model.Knots
   Proofs.KnotList Proofs.SpanCorrect Proofs.EvaluateSpec Proofs.EvalConsequences Proofs.SnapSpec Proofs.SnapChar Proofs.TensorLemmas Proofs.ObjEval
   Proofs.InsertMatrix Proofs.TensorApply Proofs.InsertObj Proofs.OrderRaise Proofs.InsertEndToEnd Proofs.ChangeDirEval Proofs.RestrictDirEval
-  Proofs.InterpProofs Proofs.SectionProofs.
+  Proofs.InterpProofs Proofs.SectionProofs Proofs.LinAlg Proofs.SplitCompose Extract.Exec.
 Import ListNotations.
 Open Scope R_scope.
 
@@ -197,7 +198,7 @@ Proof.
   destruct pn as [[t r]|]; cbn [pin_ok] in Hpn.
   - destruct Hpn as [Hv _]. cbn [fill validate hd tl free_of]. rewrite Hv, IH.
     destruct (@validate R NumR tol (free_of pins bs) ts); reflexivity.
-  - cbn [fill validate tl free_of]. change (@n0 R NumR) with 0.
+  - cbn [fill validate hd tl free_of]. change (@n0 R NumR) with 0.
     destruct (@validate1 R NumR tol b (hd 0 ts)) as [t'|e]; [|reflexivity].
     rewrite IH. destruct (@validate R NumR tol (free_of pins bs) (tl ts)); reflexivity.
 Qed.
@@ -235,17 +236,20 @@ Hypothesis Hpins : Forall2 (pin_ok tol) pins (o_bases o).
    validation fails: both sides are then the same ValueError) *)
 Theorem pinned_eval ts : @obj_eval R NumR tol (pinned_obj o pins) ts = @obj_eval R NumR tol o (fill pins ts).
 Proof.
-  unfold obj_eval, pinned_obj. cbn [o_bases o_rat o_dim]. rewrite (gsec_validate tol pins (o_bases o) Hpins ts).
+  unfold obj_eval.
+  change (o_bases (pinned_obj o pins)) with (free_of pins (o_bases o)).
+  change (o_rat (pinned_obj o pins)) with (o_rat o). change (o_dim (pinned_obj o pins)) with (o_dim o).
+  rewrite (gsec_validate tol pins (o_bases o) Hpins ts).
   destruct (@validate R NumR tol (free_of pins (o_bases o)) ts) as [r|e]; [|reflexivity].
-  assert (EH : forall o', o' = pinned_obj o pins -> @eval_h R NumR tol o' [] [] r = @eval_h R NumR tol o [] [] (fill pins r)).
-  { intros o' ->. unfold eval_h, pinned_obj. cbn [o_bases o_cps]. change (@o_ncomp R (mkObj _ _ (o_dim o) (o_rat o))) with (@o_ncomp R o).
+  assert (EH : @eval_h R NumR tol (pinned_obj o pins) [] [] r = @eval_h R NumR tol o [] [] (fill pins r)).
+  { unfold eval_h, pinned_obj. cbn [o_bases o_cps]. change (@o_ncomp R (mkObj _ _ (o_dim o) (o_rat o))) with (@o_ncomp R o).
     destruct (gsec_rows tol pins (o_bases o) Hpins r) as [HR HFr]. rewrite <- HFr.
     rewrite <- (cd_shape_rows tol o (fill pins r)).
     destruct Hwf as (HB & HV & HL).
     apply gsec_teval; [exact HR| |].
     - split; [exact HV|]. rewrite cd_shape_rows. exact HL.
     - rewrite cd_shape_rows. apply (cd_pos tol o Hwf). }
-  rewrite (EH _ eq_refl). reflexivity.
+  rewrite EH. reflexivity.
 Qed.
 
 Theorem pinned_wf : wf_obj_R tol (pinned_obj o pins).
@@ -261,6 +265,1172 @@ Proof.
   unfold pinned_obj. split; [|split]; cbn [o_bases o_cps].
   - apply free_of_Forall. exact HB.
   - exact Hv.
-  - rewrite Hl. f_equal. unfold o_shape. cbn [o_bases]. rewrite <- free_of_map. f_equal. exact Hsh.
+  - rewrite Hl. f_equal. unfold o_shape at 1. cbn [o_bases]. rewrite <- (free_of_map (@length R)), Hsh. unfold o_shape. apply free_of_map.
 Qed.
 End Pinned.
+
+(* ====================================================================================================== *)
+(* 3. Sections                                                                                             *)
+(* ====================================================================================================== *)
+(* the row of B-spline values at a knot of multiplicity p-1 (order p): a unit row.  Right-sided: k_m <= t < k_{m+1}
+   with k_j = t for the p-1 indices m-(p-1) < j <= m; left-sided: t = k_{m+1} > k_m with k_j = t for m+1 <= j <= m+p-1 *)
+Lemma Brow_nth0 side (k : list R) pp t i : (i < length k - pp)%nat -> nth i (Brow side k pp t) 0 = B side (@kn R NumR k) (pp - 1) i t.
+Proof. intros Hi. unfold Brow. rewrite (nth_map_gen _ _ i 0 0%nat) by (rewrite seq_length; lia). rewrite seq_nth by lia. reflexivity. Qed.
+
+Lemma Brow_full_mult_right (k : list R) p m t :
+  sorted (@kn R NumR k) -> (1 <= p)%nat -> @kn R NumR k m <= t < @kn R NumR k (S m) -> (p - 1 <= m)%nat ->
+  (forall j, (m - (p - 1) < j <= m)%nat -> @kn R NumR k j = t) ->
+  Brow true k p t = unit_row (length k - p) (m - (p - 1)).
+Proof.
+  intros HK Hp Ht Hm Hmul. apply (nth_ext _ _ 0 0).
+  - unfold Brow. rewrite map_length, seq_length, unit_row_length. reflexivity.
+  - intros c Hc. unfold Brow in Hc. rewrite map_length, seq_length in Hc.
+    rewrite Brow_nth0 by exact Hc. rewrite unit_row_nth by exact Hc.
+    destruct (Nat.eq_dec (p - 1) 0) as [E|E].
+    + rewrite E. rewrite Nat.sub_0_r. apply (B0_span true (@kn R NumR k) HK m t). cbn. exact Ht.
+    + assert (Et : t = @kn R NumR k m) by (symmetry; apply Hmul; lia).
+      apply (B_at_full_mult_knot (@kn R NumR k) HK m t Et); [rewrite <- Et; apply Ht|exact Hm|exact Hmul].
+Qed.
+
+Lemma Brow_full_mult_left (k : list R) p m t :
+  sorted (@kn R NumR k) -> t = @kn R NumR k (S m) -> @kn R NumR k m < @kn R NumR k (S m) ->
+  (forall j, (m + 1 <= j <= m + (p - 1))%nat -> @kn R NumR k j = t) ->
+  Brow false k p t = unit_row (length k - p) m.
+Proof.
+  intros HK Et Hlt Hmul. apply (nth_ext _ _ 0 0).
+  - unfold Brow. rewrite map_length, seq_length, unit_row_length. reflexivity.
+  - intros c Hc. unfold Brow in Hc. rewrite map_length, seq_length in Hc.
+    rewrite Brow_nth0 by exact Hc. rewrite unit_row_nth by exact Hc.
+    apply (B_at_full_mult_knot_left (@kn R NumR k) HK m t Et Hlt (p - 1)%nat Hmul).
+Qed.
+
+(* how a pinned direction is established on a non-periodic basis: t is not moved by snap, lies in the domain,
+   and the Cox-de Boor row at t (taken from the left within tol of the end, as evaluate does) is r *)
+Lemma pin_ok_intro tol p (k : list R) t r :
+  0 < tol -> wf_basis_R tol (mkBasis p k 0) ->
+  @snap1 R NumR k tol t = t -> @kn R NumR k (p - 1) <= t <= @kn R NumR k (length k - p) ->
+  Brow (if Rltb (Rabs (t - @kn R NumR k (length k - p))) tol then false else true) k p t = r ->
+  pin_ok tol (Some (t, r)) (mkBasis p k 0).
+Proof.
+  intros Htol (HK & Hp & Hlen & Hn & Hw) Hsn Ht Hr. cbn [b_knots b_order] in *. unfold b_start, b_end in Hw. cbn [b_knots b_order] in Hw.
+  cbn [pin_ok]. split.
+  - rewrite validate1_ok.
+    + cbn [b_knots]. rewrite Hsn. reflexivity.
+    + intros _. unfold b_start, b_end. cbn [b_knots b_order]. rewrite Hsn. exact Ht.
+  - rewrite (basis_row_nonper tol k p t HK Hp Hlen Htol). rewrite Hsn.
+    rewrite (normalise_nonper_true k p tol t Htol Hw Ht). exact Hr.
+Qed.
+
+Definition clamped_start (b : basis R) : Prop :=
+  (forall j, (j < b_order b)%nat -> @kn R NumR (b_knots b) j = @b_start R NumR b) /\
+  @b_start R NumR b < @kn R NumR (b_knots b) (b_order b).
+Definition clamped_end (b : basis R) : Prop :=
+  let n := (length (b_knots b) - b_order b)%nat in
+  (forall j, (n <= j < n + b_order b)%nat -> @kn R NumR (b_knots b) j = @b_end R NumR b) /\
+  @kn R NumR (b_knots b) (n - 1) < @b_end R NumR b.
+
+Lemma start_pin_ok tol (b : basis R) : 0 < tol -> wf_basis_R tol b -> b_per1 b = 0%nat -> clamped_start b ->
+  pin_ok tol (Some (@b_start R NumR b, unit_row (@b_nfun R b) 0)) b.
+Proof.
+  intros Htol Hwf Hper [Hm Hlt]. destruct b as [p k per]. cbn [b_per1] in Hper. subst per.
+  pose proof Hwf as (HK & Hp & Hlen & Hn & Hw).
+  unfold b_start, b_end, b_nfun in *. cbn [b_knots b_order b_per1] in *.
+  apply pin_ok_intro; try assumption.
+  - apply snap1_knot; [exact HK|exact Htol|lia].
+  - lra.
+  - destruct (Rltb_spec (Rabs (@kn R NumR k (p - 1) - @kn R NumR k (length k - p))) tol) as [A|A].
+    + exfalso. rewrite Rabs_left1 in A by lra. lra.
+    + rewrite (Brow_full_mult_right k p (p - 1) _ HK Hp).
+      * f_equal; lia.
+      * replace (S (p - 1)) with p by lia. lra.
+      * lia.
+      * intros j Hj. apply Hm. lia.
+Qed.
+
+Lemma end_pin_ok tol (b : basis R) : 0 < tol -> wf_basis_R tol b -> b_per1 b = 0%nat -> clamped_end b ->
+  pin_ok tol (Some (@b_end R NumR b, unit_row (@b_nfun R b) (@b_nfun R b - 1))) b.
+Proof.
+  intros Htol Hwf Hper [Hm Hlt]. destruct b as [p k per]. cbn [b_per1] in Hper. subst per.
+  pose proof Hwf as (HK & Hp & Hlen & Hn & Hw).
+  unfold b_start, b_end, b_nfun in *. cbn [b_knots b_order b_per1] in *.
+  apply pin_ok_intro; try assumption.
+  - apply snap1_knot; [exact HK|exact Htol|lia].
+  - lra.
+  - destruct (Rltb_spec (Rabs (@kn R NumR k (length k - p) - @kn R NumR k (length k - p))) tol) as [A|A].
+    + rewrite (Brow_full_mult_left k p (length k - p - 1) _ HK).
+      * f_equal; lia.
+      * f_equal. lia.
+      * replace (S (length k - p - 1)) with (length k - p)%nat by lia. exact Hlt.
+      * intros j Hj. apply Hm. lia.
+    + exfalso. apply A. replace (@kn R NumR k (length k - p) - @kn R NumR k (length k - p)) with 0 by ring. rewrite Rabs_R0. exact Htol.
+Qed.
+
+(* selector per direction (Model/Section.v): 0 = first index, 1 = last index, anything else = free *)
+Definition sec_pin (s : nat) (b : basis R) : pin :=
+  if (s =? 0)%nat then Some (@b_start R NumR b, unit_row (@b_nfun R b) 0)
+  else if (s =? 1)%nat then Some (@b_end R NumR b, unit_row (@b_nfun R b) (@b_nfun R b - 1)) else None.
+Fixpoint sec_pins (sels : list nat) (bs : list (basis R)) : list pin :=
+  match sels, bs with
+  | s :: sels', b :: bs' => sec_pin s b :: sec_pins sels' bs'
+  | _, _ => []
+  end.
+
+(* the hypothesis on a pinned direction: non-periodic, and clamped at the chosen end *)
+Definition sec_ok (s : nat) (b : basis R) : Prop :=
+  if (s =? 0)%nat then b_per1 b = 0%nat /\ clamped_start b
+  else if (s =? 1)%nat then b_per1 b = 0%nat /\ clamped_end b else True.
+
+(* the parameter tuple of the object that corresponds to the tuple ts of the section: the start / end of the
+   pinned directions is inserted at their positions *)
+Fixpoint sec_fill (sels : list nat) (bs : list (basis R)) (ts : list R) : list R :=
+  match sels, bs with
+  | s :: sels', b :: bs' =>
+    if (s =? 0)%nat then @b_start R NumR b :: sec_fill sels' bs' ts
+    else if (s =? 1)%nat then @b_end R NumR b :: sec_fill sels' bs' ts
+    else hd 0 ts :: sec_fill sels' bs' (tl ts)
+  | _, _ => []
+  end.
+
+Lemma sec_pins_ok tol : 0 < tol -> forall sels bs, Forall (wf_basis_R tol) bs -> Forall2 sec_ok sels bs ->
+  Forall2 (pin_ok tol) (sec_pins sels bs) bs.
+Proof.
+  intros Htol sels bs Hwf H. induction H as [|s b sels bs Hs HF IH]; [constructor|].
+  inversion Hwf as [|? ? Hb Hbs]; subst. cbn [sec_pins]. constructor; [|apply IH; exact Hbs].
+  unfold sec_pin, sec_ok in *. destruct (s =? 0)%nat; [destruct Hs; apply start_pin_ok; assumption|].
+  destruct (s =? 1)%nat; [destruct Hs; apply end_pin_ok; assumption|exact I].
+Qed.
+
+Lemma sec_fill_pins : forall sels bs ts, fill (sec_pins sels bs) ts = sec_fill sels bs ts.
+Proof.
+  induction sels as [|s sels IH]; intros bs ts; [reflexivity|]. destruct bs as [|b bs]; [reflexivity|].
+  cbn [sec_pins sec_fill]. unfold sec_pin. destruct (s =? 0)%nat; [cbn [fill]; f_equal; apply IH|].
+  destruct (s =? 1)%nat; cbn [fill]; f_equal; apply IH.
+Qed.
+
+Lemma sel_matrix_unit n idx : @sel_matrix R NumR n idx = [unit_row n idx].
+Proof. reflexivity. Qed.
+
+Lemma section_cps_gsec ncomp : forall sels bs, length sels = length bs -> forall pre cps,
+  @section_cps R NumR ncomp (pre ++ map (@b_nfun R) bs) sels (length pre) cps
+  = gsec_cps ncomp (pre ++ map (@b_nfun R) bs) (sec_pins sels bs) (length pre) cps.
+Proof.
+  induction sels as [|s sels IH]; intros bs Hl pre cps; [reflexivity|].
+  destruct bs as [|b bs]; [cbn in Hl; lia|]. cbn [length] in Hl.
+  cbn [section_cps sec_pins map]. rewrite nth_middle, !upd_app_mid, !sel_matrix_unit. unfold sec_pin.
+  assert (E : forall x : nat, pre ++ x :: map (@b_nfun R) bs = (pre ++ [x]) ++ map (@b_nfun R) bs) by (intros x; rewrite <- app_assoc; reflexivity).
+  assert (L : forall x : nat, S (length pre) = length (pre ++ [x])) by (intros x; rewrite app_length; cbn [length]; lia).
+  destruct (s =? 0)%nat.
+  - cbn [gsec_cps]. rewrite upd_app_mid. rewrite (E 1%nat), (L 1%nat). apply IH. lia.
+  - destruct (s =? 1)%nat.
+    + cbn [gsec_cps]. rewrite upd_app_mid. rewrite (E 1%nat), (L 1%nat). apply IH. lia.
+    + cbn [gsec_cps]. rewrite (E (@b_nfun R b)), (L (@b_nfun R b)). apply IH. lia.
+Qed.
+
+Lemma sec_free : forall sels (bs : list (basis R)),
+  map snd (filter (fun sb : nat * basis R => negb ((fst sb =? 0)%nat || (fst sb =? 1)%nat)) (combine sels bs))
+  = free_of (sec_pins sels bs) bs.
+Proof.
+  induction sels as [|s sels IH]; intros bs; [reflexivity|]. destruct bs as [|b bs]; [reflexivity|].
+  cbn [combine filter fst sec_pins]. unfold sec_pin.
+  destruct (s =? 0)%nat; cbn [orb negb free_of]; [apply IH|].
+  destruct (s =? 1)%nat; cbn [negb free_of map snd]; [apply IH|f_equal; apply IH].
+Qed.
+
+(* the model's section IS the pinned object with unit rows *)
+Lemma obj_section_pinned (o : obj R) sels : length sels = length (o_bases o) ->
+  @obj_section R NumR o sels = pinned_obj o (sec_pins sels (o_bases o)).
+Proof.
+  intros Hl. unfold obj_section, pinned_obj. f_equal; [apply sec_free|].
+  f_equal. exact (section_cps_gsec (@o_ncomp R o) sels (o_bases o) Hl [] (o_cps o)).
+Qed.
+
+Section SectionEval.
+Variable tol : R.
+Hypothesis Htol : 0 < tol.
+Variable o : obj R.
+Hypothesis Hwf : wf_obj_R tol o.
+Variable sels : list nat.
+Hypothesis Hsels : Forall2 sec_ok sels (o_bases o).
+
+(* 2. the general selector *)
+Theorem section_eval ts :
+  @obj_eval R NumR tol (@obj_section R NumR o sels) ts = @obj_eval R NumR tol o (sec_fill sels (o_bases o) ts).
+Proof.
+  rewrite obj_section_pinned by (apply (Forall2_length' _ _ _ Hsels)).
+  rewrite <- sec_fill_pins. apply pinned_eval; [exact Hwf|].
+  apply sec_pins_ok; [exact Htol|apply Hwf|exact Hsels].
+Qed.
+
+Theorem section_wf : wf_obj_R tol (@obj_section R NumR o sels).
+Proof.
+  rewrite obj_section_pinned by (apply (Forall2_length' _ _ _ Hsels)).
+  apply pinned_wf; [exact Hwf|]. apply sec_pins_ok; [exact Htol|apply Hwf|exact Hsels].
+Qed.
+End SectionEval.
+
+(* ---------- 1. pinning ONE direction ---------- *)
+Definition one_sel (n d : nat) (last : bool) : list nat :=
+  repeat 2%nat d ++ (if last then 1%nat else 0%nat) :: repeat 2%nat (n - d - 1).
+
+Lemma sec_fill_free : forall (bs : list (basis R)) ts, length ts = length bs -> sec_fill (repeat 2%nat (length bs)) bs ts = ts.
+Proof.
+  induction bs as [|b bs IH]; intros ts Hl; [destruct ts; [reflexivity|cbn in Hl; lia]|].
+  destruct ts as [|t ts]; [cbn in Hl; lia|]. cbn [length repeat sec_fill Nat.eqb hd tl]. f_equal. apply IH. cbn in Hl. lia.
+Qed.
+
+Lemma skipn_nth_cons {A} (l : list A) d dflt : (d < length l)%nat -> skipn d l = nth d l dflt :: skipn (S d) l.
+Proof. revert d; induction l as [|a l IH]; intros d Hd; [cbn in Hd; lia|]. destruct d; [reflexivity|]. cbn [skipn nth]. apply IH. cbn in Hd. lia. Qed.
+
+Lemma sec_fill_prefix : forall d (bs : list (basis R)) ts rest, (d <= length bs)%nat -> (d <= length ts)%nat ->
+  sec_fill (repeat 2%nat d ++ rest) bs ts = firstn d ts ++ sec_fill rest (skipn d bs) (skipn d ts).
+Proof.
+  induction d as [|d IH]; intros bs ts rest Hb Ht; [reflexivity|].
+  destruct bs as [|b bs]; [cbn in Hb; lia|]. destruct ts as [|t ts]; [cbn in Ht; lia|].
+  cbn [repeat app sec_fill Nat.eqb hd tl firstn skipn]. f_equal. apply IH; cbn in *; lia.
+Qed.
+
+Lemma Forall2_sec_free : forall bs : list (basis R), Forall2 sec_ok (repeat 2%nat (length bs)) bs.
+Proof. induction bs as [|b bs IH]; cbn [length repeat]; constructor; [exact I|exact IH]. Qed.
+
+Lemma Forall2_one_sel s : forall d (bs : list (basis R)), (d < length bs)%nat -> sec_ok s (nth d bs dflt_basis) ->
+  Forall2 sec_ok (repeat 2%nat d ++ s :: repeat 2%nat (length bs - d - 1)) bs.
+Proof.
+  induction d as [|d IH]; intros bs Hd Hs; (destruct bs as [|b bs]; [cbn in Hd; lia|]).
+  - cbn [length repeat app nth] in *. replace (S (length bs) - 0 - 1)%nat with (length bs) by lia.
+    constructor; [exact Hs|apply Forall2_sec_free].
+  - cbn [length repeat app nth] in *. constructor; [exact I|]. replace (S (length bs) - S d - 1)%nat with (length bs - d - 1)%nat by lia.
+    apply IH; [lia|exact Hs].
+Qed.
+
+Theorem section_eval_one tol (o : obj R) d (last : bool) ts :
+  0 < tol -> wf_obj_R tol o -> (d < length (o_bases o))%nat ->
+  let bd := nth d (o_bases o) dflt_basis in
+  b_per1 bd = 0%nat -> (if last then clamped_end bd else clamped_start bd) ->
+  length ts = (length (o_bases o) - 1)%nat ->
+  @obj_eval R NumR tol (@obj_section R NumR o (one_sel (length (o_bases o)) d last)) ts
+  = @obj_eval R NumR tol o (firstn d ts ++ (if last then @b_end R NumR bd else @b_start R NumR bd) :: skipn d ts).
+Proof.
+  intros Htol Hwf Hd bd Hper Hcl Hts. unfold one_sel.
+  rewrite (section_eval tol Htol o Hwf).
+  - f_equal. rewrite sec_fill_prefix by lia. f_equal.
+    rewrite (skipn_nth_cons (o_bases o) d dflt_basis Hd). fold bd.
+    assert (Hrest : sec_fill (repeat 2%nat (length (o_bases o) - d - 1)) (skipn (S d) (o_bases o)) (skipn d ts) = skipn d ts).
+    { replace (length (o_bases o) - d - 1)%nat with (length (skipn (S d) (o_bases o))) by (rewrite skipn_length; lia).
+      apply sec_fill_free. rewrite !skipn_length. lia. }
+    destruct last; cbn [sec_fill Nat.eqb]; rewrite Hrest; reflexivity.
+  - apply Forall2_one_sel; [exact Hd|]. fold bd. destruct last; cbn [sec_ok Nat.eqb]; unfold sec_ok; cbn [Nat.eqb]; split; assumption.
+Qed.
+
+(* ---------- corners: every direction pinned ---------- *)
+Fixpoint corner_rows (sels : list nat) (bs : list (basis R)) : list (list R) :=
+  match sels, bs with
+  | s :: sels', b :: bs' => unit_row (@b_nfun R b) (if (s =? 0)%nat then 0%nat else (@b_nfun R b - 1)%nat) :: corner_rows sels' bs'
+  | _, _ => []
+  end.
+(* the flat (C order) index of the corner control point *)
+Fixpoint corner_flat (sels shape : list nat) : nat :=
+  match sels, shape with
+  | s :: sels', n :: shape' => ((if (s =? 0)%nat then 0 else n - 1) * prodl shape' + corner_flat sels' shape')%nat
+  | _, _ => 0%nat
+  end.
+(* ... is the model's [ravel] of the multi-index (0 or n_i - 1 per direction) *)
+Lemma corner_flat_ravel : forall sels shape,
+  corner_flat sels shape = ravel shape (map (fun sn : nat * nat => if (fst sn =? 0)%nat then 0%nat else (snd sn - 1)%nat) (combine sels shape)).
+Proof.
+  induction sels as [|s sels IH]; intros shape; [destruct shape; reflexivity|]. destruct shape as [|n shape]; [reflexivity|].
+  cbn [corner_flat combine map ravel fst snd]. rewrite IH. reflexivity.
+Qed.
+
+Definition all_pinned (sels : list nat) : Prop := Forall (fun s => s = 0%nat \/ s = 1%nat) sels.
+
+Lemma corner_flat_lt : forall sels shape, length sels = length shape -> Forall (fun n => 0 < n)%nat shape ->
+  (corner_flat sels shape < prodl shape)%nat.
+Proof.
+  induction sels as [|s sels IH]; intros shape Hl Hp; destruct shape as [|n shape]; try (cbn in Hl; lia); [cbn; lia|].
+  inversion Hp; subst. cbn [corner_flat prodl fold_right]. fold (prodl shape).
+  specialize (IH shape ltac:(cbn in Hl; lia) ltac:(assumption)). destruct (s =? 0)%nat; nia.
+Qed.
+
+Lemma tsum_corner_rows : forall sels bs, length sels = length bs -> Forall (fun b => 0 < @b_nfun R b)%nat bs -> forall f,
+  tsum (corner_rows sels bs) f = f (corner_flat sels (map (@b_nfun R) bs)).
+Proof.
+  induction sels as [|s sels IH]; intros bs Hl Hp f; destruct bs as [|b bs]; try (cbn in Hl; lia); [reflexivity|].
+  inversion Hp; subst. cbn [corner_rows corner_flat map tsum]. cbv zeta.
+  assert (Hsh : map (@length R) (corner_rows sels bs) = map (@b_nfun R) bs).
+  { clear - Hl. cbn in Hl. revert bs Hl. induction sels as [|s' sels IH']; intros bs Hl; destruct bs as [|b' bs]; try (cbn in Hl; lia); [reflexivity|].
+    cbn [corner_rows map]. rewrite unit_row_length. f_equal. apply IH'. cbn in Hl. lia. }
+  rewrite Hsh. rewrite lcf_unit by (destruct (s =? 0)%nat; lia).
+  rewrite IH by (try assumption; cbn in Hl; lia). reflexivity.
+Qed.
+
+Lemma corner_rows_pins : forall sels bs, length sels = length bs -> all_pinned sels ->
+  Forall2 pin_row (sec_pins sels bs) (corner_rows sels bs) /\ (forall A (l : list A), free_of (sec_pins sels bs) l = []) /\
+  map (@length R) (corner_rows sels bs) = map (@b_nfun R) bs.
+Proof.
+  induction sels as [|s sels IH]; intros bs Hl Hp; destruct bs as [|b bs]; try (cbn in Hl; lia).
+  - split; [constructor|]. split; [intros A l; destruct l; reflexivity|reflexivity].
+  - inversion Hp as [|? ? Hs Hp']; subst. destruct (IH bs ltac:(cbn in Hl; lia) Hp') as (I1 & I2 & I3).
+    cbn [sec_pins corner_rows map]. rewrite unit_row_length, I3. unfold sec_pin.
+    destruct Hs as [-> | ->]; cbn [Nat.eqb]; (split; [constructor; [reflexivity|exact I1]|]); (split; [|reflexivity]);
+      intros A l; destruct l; cbn [free_of]; try reflexivity; apply I2.
+Qed.
+
+(* the corner section consists of exactly the corner control point (in homogeneous coordinates when rational, as
+   SplineObject.corners documents) -- a statement about the net only *)
+Theorem section_corner_cps tol (o : obj R) sels :
+  wf_obj_R tol o -> length sels = length (o_bases o) -> all_pinned sels ->
+  o_bases (@obj_section R NumR o sels) = [] /\
+  o_cps (@obj_section R NumR o sels) = [nth (corner_flat sels (@o_shape R o)) (o_cps o) []] /\
+  (corner_flat sels (@o_shape R o) < length (o_cps o))%nat.
+Proof.
+  intros Hwf Hl Hp. pose proof (cd_pos tol o Hwf) as Hpos. destruct Hwf as (HB & HV & HL).
+  assert (Hnf : Forall (fun b => 0 < @b_nfun R b)%nat (o_bases o)).
+  { apply Forall_forall. intros b Hb. rewrite Forall_forall in HB. apply (HB b Hb). }
+  destruct (corner_rows_pins sels (o_bases o) Hl Hp) as (P1 & P2 & P3).
+  assert (Hlt : (corner_flat sels (@o_shape R o) < length (o_cps o))%nat).
+  { rewrite HL. apply corner_flat_lt; [unfold o_shape; rewrite map_length; exact Hl|].
+    unfold o_shape. apply Forall_forall. intros n Hn. apply in_map_iff in Hn. destruct Hn as (b & <- & Hb).
+    rewrite Forall_forall in Hnf. apply (Hnf b Hb). }
+  rewrite (obj_section_pinned o sels Hl). unfold pinned_obj. cbn [o_bases o_cps].
+  split; [apply P2|]. split; [|exact Hlt].
+  fold (@o_shape R o) in P3. rewrite <- P3.
+  destruct (gsec_teval (@o_ncomp R o) (sec_pins sels (o_bases o)) (corner_rows sels (o_bases o)) (o_cps o) P1) as [[Hv Hlen] Hev].
+  { split; [exact HV|]. rewrite P3. exact HL. }
+  { rewrite P3. exact Hpos. }
+  rewrite P2 in Hlen, Hev. cbn [map prodl fold_right] in Hlen. cbn [teval] in Hev.
+  set (cps' := fst (gsec_cps (@o_ncomp R o) (map (@length R) (corner_rows sels (o_bases o))) (sec_pins sels (o_bases o)) 0 (o_cps o))) in *.
+  destruct cps' as [|x [|y rest]]; try (cbn in Hlen; lia). cbn [nth] in Hev. f_equal. rewrite Hev.
+  assert (Hnet : net_ok (@o_ncomp R o) (corner_rows sels (o_bases o)) (o_cps o)) by (split; [exact HV|rewrite P3; exact HL]).
+  rewrite P3. fold (@o_shape R o).
+  apply (nth_ext _ _ 0 0).
+  - rewrite (teval_length _ _ _ Hnet). rewrite Forall_forall in HV. symmetry. apply HV. apply nth_In. exact Hlt.
+  - intros c Hc. rewrite (teval_length _ _ _ Hnet) in Hc.
+    change (nth c ?v 0) with (coord c v).
+    rewrite (teval_tsum (@o_ncomp R o) c _ Hc _ Hnet).
+    rewrite (tsum_corner_rows sels (o_bases o) Hl Hnf). unfold cnet. fold (@o_shape R o).
+    rewrite (nth_indep _ (@vzero R NumR (@o_ncomp R o)) []) by exact Hlt. reflexivity.
+Qed.
+
+(* ... and, when the pinned ends are clamped, the object evaluated at the corner parameters is that control point
+   (divided by its weight when rational) *)
+Theorem section_corner tol (o : obj R) sels :
+  0 < tol -> wf_obj_R tol o -> Forall2 sec_ok sels (o_bases o) -> all_pinned sels ->
+  let P := nth (corner_flat sels (@o_shape R o)) (o_cps o) [] in
+  @obj_eval R NumR tol o (sec_fill sels (o_bases o) []) = Ok (if o_rat o then @project_rat R NumR (o_dim o) P else P).
+Proof.
+  intros Htol Hwf Hs Hp P.
+  rewrite <- (section_eval tol Htol o Hwf sels Hs []).
+  destruct (section_corner_cps tol o sels Hwf (Forall2_length' _ _ _ Hs) Hp) as (Hb & Hc & _).
+  unfold obj_eval, eval_h. rewrite Hb, Hc. cbn [validate]. unfold rows_at. cbn [length seq map teval nth].
+  reflexivity.
+Qed.
+
+(* ====================================================================================================== *)
+(* 3b. The control net of a section is the sliced net (self.controlpoints[slices])                        *)
+(* ====================================================================================================== *)
+Fixpoint unit_rows (shape idxs : list nat) : list (list R) :=
+  match shape, idxs with
+  | n :: shape', i :: idxs' => unit_row n i :: unit_rows shape' idxs'
+  | _, _ => []
+  end.
+
+Lemma unit_rows_shape : forall shape idxs, length idxs = length shape -> map (@length R) (unit_rows shape idxs) = shape.
+Proof.
+  induction shape as [|n shape IH]; intros idxs Hl; [destruct idxs; reflexivity|].
+  destruct idxs as [|i idxs]; [cbn in Hl; lia|]. cbn [unit_rows map]. rewrite unit_row_length. f_equal. apply IH. cbn in Hl. lia.
+Qed.
+
+Lemma tsum_unit_rows : forall idxs shape, Forall2 lt idxs shape -> forall f, tsum (unit_rows shape idxs) f = f (ravel shape idxs).
+Proof.
+  induction 1 as [|i n idxs shape Hi HF IH]; intros f; [reflexivity|].
+  cbn [unit_rows tsum ravel]. cbv zeta. rewrite (unit_rows_shape shape idxs (Forall2_length' _ _ _ HF)).
+  rewrite lcf_unit by exact Hi. rewrite IH. reflexivity.
+Qed.
+
+Lemma ravel_lt : forall idxs shape, Forall2 lt idxs shape -> (ravel shape idxs < prodl shape)%nat.
+Proof.
+  induction 1 as [|i n idxs shape Hi HF IH]; [cbn; lia|].
+  cbn [ravel prodl fold_right]. fold (prodl shape). nia.
+Qed.
+
+(* contracting a net with unit rows picks the entry at the (C order) flat index *)
+Lemma teval_unit_rows ncomp shape idxs (cps : list (list R)) :
+  Forall2 lt idxs shape -> Forall (fun v => length v = ncomp) cps -> length cps = prodl shape ->
+  @teval R NumR ncomp (unit_rows shape idxs) cps = nth (ravel shape idxs) cps [].
+Proof.
+  intros HF Hv Hl. pose proof (ravel_lt idxs shape HF) as Hlt.
+  assert (Hnet : net_ok ncomp (unit_rows shape idxs) cps).
+  { split; [exact Hv|]. rewrite (unit_rows_shape shape idxs (Forall2_length' _ _ _ HF)). exact Hl. }
+  apply (nth_ext _ _ 0 0).
+  - rewrite (teval_length _ _ _ Hnet). rewrite Forall_forall in Hv. symmetry. apply Hv, nth_In. lia.
+  - intros c Hc. rewrite (teval_length _ _ _ Hnet) in Hc. change (nth c ?v 0) with (coord c v).
+    rewrite (teval_tsum ncomp c _ Hc _ Hnet). rewrite (tsum_unit_rows idxs shape HF). unfold cnet.
+    rewrite (nth_indep _ (@vzero R NumR ncomp) []) by lia. reflexivity.
+Qed.
+
+(* the multi-index of the object that corresponds to the multi-index js of the section *)
+Fixpoint sec_idx (sels shape js : list nat) : list nat :=
+  match sels, shape with
+  | s :: sels', n :: shape' =>
+    if (s =? 0)%nat then 0%nat :: sec_idx sels' shape' js
+    else if (s =? 1)%nat then (n - 1)%nat :: sec_idx sels' shape' js
+    else hd 0%nat js :: sec_idx sels' shape' (tl js)
+  | _, _ => []
+  end.
+
+Lemma sec_unit_rows : forall sels (bs : list (basis R)) js, length sels = length bs -> Forall (fun b => 0 < @b_nfun R b)%nat bs ->
+  Forall2 lt js (free_of (sec_pins sels bs) (map (@b_nfun R) bs)) ->
+  Forall2 lt (sec_idx sels (map (@b_nfun R) bs) js) (map (@b_nfun R) bs) /\
+  Forall2 pin_row (sec_pins sels bs) (unit_rows (map (@b_nfun R) bs) (sec_idx sels (map (@b_nfun R) bs) js)) /\
+  free_of (sec_pins sels bs) (unit_rows (map (@b_nfun R) bs) (sec_idx sels (map (@b_nfun R) bs) js))
+  = unit_rows (free_of (sec_pins sels bs) (map (@b_nfun R) bs)) js.
+Proof.
+  induction sels as [|s sels IH]; intros bs js Hl Hp Hjs; destruct bs as [|b bs]; try (cbn in Hl; lia).
+  - cbn [sec_pins map free_of] in *. inversion Hjs; subst. split; [constructor|]. split; [constructor|reflexivity].
+  - inversion Hp as [|? ? Hb Hp']; subst. cbn [sec_pins map sec_idx] in *. unfold sec_pin in *.
+    destruct (s =? 0)%nat.
+    + cbn [free_of] in Hjs. destruct (IH bs js ltac:(cbn in Hl; lia) Hp' Hjs) as (A & B & C).
+      cbn [unit_rows free_of]. split; [constructor; [exact Hb|exact A]|]. split; [constructor; [reflexivity|exact B]|exact C].
+    + destruct (s =? 1)%nat.
+      * cbn [free_of] in Hjs. destruct (IH bs js ltac:(cbn in Hl; lia) Hp' Hjs) as (A & B & C).
+        cbn [unit_rows free_of]. split; [constructor; [lia|exact A]|]. split; [constructor; [reflexivity|exact B]|exact C].
+      * cbn [free_of] in Hjs. inversion Hjs as [|j n' js' sh' Hj Hjs' E1 E2]; subst. cbn [hd tl].
+        destruct (IH bs js' ltac:(cbn in Hl; lia) Hp' Hjs') as (A & B & C).
+        cbn [unit_rows free_of]. split; [constructor; [exact Hj|exact A]|]. split; [constructor; [exact I|exact B]|]. f_equal. exact C.
+Qed.
+
+(* entry js of the section's net = entry (sec_idx ... js) of the object's net: the pinned directions sit at their
+   first / last index, the free ones at js *)
+Theorem section_cps_slice tol (o : obj R) sels js :
+  wf_obj_R tol o -> length sels = length (o_bases o) -> Forall2 lt js (@o_shape R (@obj_section R NumR o sels)) ->
+  nth (ravel (@o_shape R (@obj_section R NumR o sels)) js) (o_cps (@obj_section R NumR o sels)) []
+  = nth (ravel (@o_shape R o) (sec_idx sels (@o_shape R o) js)) (o_cps o) [].
+Proof.
+  intros Hwf Hl Hjs. pose proof (cd_pos tol o Hwf) as Hpos. destruct Hwf as (HB & HV & HL).
+  assert (Hnf : Forall (fun b => 0 < @b_nfun R b)%nat (o_bases o)).
+  { apply Forall_forall. intros b Hb. rewrite Forall_forall in HB. apply (HB b Hb). }
+  rewrite (obj_section_pinned o sels Hl) in *. unfold pinned_obj in *. cbn [o_bases o_cps] in *.
+  unfold o_shape in Hjs at 1. cbn [o_bases] in Hjs. rewrite <- free_of_map in Hjs.
+  unfold o_shape at 1. cbn [o_bases]. rewrite <- free_of_map.
+  destruct (sec_unit_rows sels (o_bases o) js Hl Hnf Hjs) as (A & B & C). fold (@o_shape R o) in *.
+  set (idx := sec_idx sels (@o_shape R o) js) in *.
+  assert (Hsh : map (@length R) (unit_rows (@o_shape R o) idx) = @o_shape R o) by (apply unit_rows_shape, (Forall2_length' _ _ _ A)).
+  destruct (gsec_teval (@o_ncomp R o) (sec_pins sels (o_bases o)) (unit_rows (@o_shape R o) idx) (o_cps o) B) as [[Hv Hlen] Hev].
+  { split; [exact HV|]. rewrite Hsh. exact HL. }
+  { rewrite Hsh. exact Hpos. }
+  rewrite Hsh in Hv, Hlen, Hev. rewrite C in Hlen, Hev.
+  rewrite (unit_rows_shape _ js (Forall2_length' _ _ _ Hjs)) in Hlen.
+  rewrite (teval_unit_rows _ _ _ _ Hjs Hv Hlen) in Hev. rewrite (teval_unit_rows _ _ _ _ A HV HL) in Hev. exact Hev.
+Qed.
+
+(* ====================================================================================================== *)
+(* 4. The documented ORDER of edges() / faces() / corners()                                               *)
+(* ====================================================================================================== *)
+(* TRANSCRIPTION of splipy/utils/__init__.py:
+
+     def sections(src_dim, tgt_dim):
+         nfixed = src_dim - tgt_dim
+         for fixed in combinations(range(src_dim), r=nfixed):
+             for indices in product([0, -1], repeat=nfixed):
+                 args = [None] * src_dim
+                 for f, i in zip(fixed, indices[::-1]):
+                     args[f] = i
+                 yield args
+
+   with the selector encoding of Model/Section.v: 0 -> 0 (first index), -1 -> 1 (last index), None -> 2 (free). *)
+(* itertools.combinations(l, r): lexicographic in the positions *)
+Fixpoint combs (l : list nat) (r : nat) : list (list nat) :=
+  match l with
+  | [] => match r with O => [[]] | S _ => [] end
+  | x :: l' => match r with O => [[]] | S r' => map (cons x) (combs l' r') ++ combs l' (S r') end
+  end.
+(* itertools.product([0, -1], repeat=r): the last position runs fastest *)
+Fixpoint prod01 (r : nat) : list (list nat) :=
+  match r with
+  | O => [[]]
+  | S r' => flat_map (fun h => map (cons h) (prod01 r')) [0%nat; 1%nat]
+  end.
+Definition sections (src tgt : nat) : list (list nat) :=
+  flat_map (fun fixed =>
+              map (fun indices => fold_left (fun args fi => upd args (fst fi) (snd fi)) (combine fixed (rev indices)) (repeat 2%nat src))
+                  (prod01 (src - tgt)))
+           (combs (seq 0 src) (src - tgt)).
+
+(* the selector lists, in the order the methods produce them (computed from the transcription) *)
+(* Surface.edges:   return tuple(self.section( *args) for args in sections(2, 1))      -- umin, umax, vmin, vmax *)
+Example surface_edges_order : sections 2 1 = [[0;2]; [1;2]; [2;0]; [2;1]]%nat.
+Proof. reflexivity. Qed.
+(* Volume.faces:    boundary_faces = [self.section( *args) for args in sections(3, 2)]  -- umin, umax, vmin, vmax, wmin, wmax *)
+Example volume_faces_order : sections 3 2 = [[0;2;2]; [1;2;2]; [2;0;2]; [2;1;2]; [2;2;0]; [2;2;1]]%nat.
+Proof. reflexivity. Qed.
+(* Volume.edges:    return tuple(self.section( *args) for args in sections(3, 1))
+   -- (umin,vmin) (umax,vmin) (umin,vmax) (umax,vmax) (umin,wmin) (umax,wmin) (umin,wmax) (umax,wmax)
+      (vmin,wmin) (vmax,wmin) (vmin,wmax) (vmax,wmax) *)
+Example volume_edges_order : sections 3 1 =
+  [[0;0;2]; [1;0;2]; [0;1;2]; [1;1;2];  [0;2;0]; [1;2;0]; [0;2;1]; [1;2;1];  [2;0;0]; [2;1;0]; [2;0;1]; [2;1;1]]%nat.
+Proof. reflexivity. Qed.
+(* SplineObject.corners(order='C'): for i, args in enumerate(sections(self.pardim, 0)): result[i,:] = self.section( *args)
+   -- the FIRST direction runs fastest: (0,0,0), (1,0,0), (0,1,0), (1,1,0), (0,0,1), ... as documented *)
+Example curve_corners_order : sections 1 0 = [[0]; [1]]%nat.
+Proof. reflexivity. Qed.
+Example surface_corners_order : sections 2 0 = [[0;0]; [1;0]; [0;1]; [1;1]]%nat.
+Proof. reflexivity. Qed.
+Example volume_corners_order : sections 3 0 = [[0;0;0]; [1;0;0]; [0;1;0]; [1;1;0]; [0;0;1]; [1;0;1]; [0;1;1]; [1;1;1]]%nat.
+Proof. reflexivity. Qed.
+
+(* TRANSCRIPTIONS of the methods themselves *)
+(* surface.py:  def edges(self): return tuple(self.section( *args) for args in sections(2, 1)) *)
+Definition surface_edges (o : obj R) : list (obj R) := map (@obj_section R NumR o) (sections 2 1).
+(* volume.py:   def edges(self): return tuple(self.section( *args) for args in sections(3, 1)) *)
+Definition volume_edges (o : obj R) : list (obj R) := map (@obj_section R NumR o) (sections 3 1).
+(* volume.py:   def faces(self):
+                    boundary_faces = [self.section( *args) for args in sections(3, 2)]
+                    for i,b in enumerate(self.bases):
+                        if b.periodic > -1: boundary_faces[2*i] = None; boundary_faces[2*i+1] = None
+                    return tuple(boundary_faces) *)
+Definition volume_faces (o : obj R) : list (option (obj R)) :=
+  map (fun js : nat * list nat =>
+         if (b_per1 (nth (fst js / 2) (o_bases o) dflt_basis) =? 0)%nat then Some (@obj_section R NumR o (snd js)) else None)
+      (combine (seq 0 6) (sections 3 2)).
+(* splineobject.py: def corners(self, order='C'):
+                        for i, args in enumerate(sections(self.pardim, 0)): result[i,:] = self.section( *args)
+   (the section with every direction pinned is the bare control point, weight included) *)
+Definition obj_corners (o : obj R) : list (list R) :=
+  map (fun s => hd [] (o_cps (@obj_section R NumR o s))) (sections (@o_pardim R o) 0).
+
+Definition dflt_obj : obj R := mkObj [] [] 0 false.
+
+(* every entry of a list of sections evaluates to the restriction given by its selector *)
+Theorem sections_eval tol (o : obj R) (secs : list (list nat)) i ts :
+  0 < tol -> wf_obj_R tol o -> (i < length secs)%nat -> Forall2 sec_ok (nth i secs []) (o_bases o) ->
+  @obj_eval R NumR tol (nth i (map (@obj_section R NumR o) secs) dflt_obj) ts
+  = @obj_eval R NumR tol o (sec_fill (nth i secs []) (o_bases o) ts).
+Proof.
+  intros Htol Hwf Hi Hs. rewrite (nth_indep _ dflt_obj (@obj_section R NumR o [])) by (rewrite map_length; exact Hi).
+  rewrite (map_nth (@obj_section R NumR o)). apply section_eval; assumption.
+Qed.
+
+(* Surface.edges(), entry by entry.  "open" direction = non-periodic and clamped at both ends *)
+Definition open_dir (b : basis R) : Prop := b_per1 b = 0%nat /\ clamped_start b /\ clamped_end b.
+
+Theorem surface_edges_eval tol (o : obj R) bu bv :
+  0 < tol -> wf_obj_R tol o -> o_bases o = [bu; bv] ->
+  let E := surface_edges o in
+  (b_per1 bu = 0%nat -> clamped_start bu -> forall v, @obj_eval R NumR tol (nth 0 E dflt_obj) [v] = @obj_eval R NumR tol o [@b_start R NumR bu; v]) /\
+  (b_per1 bu = 0%nat -> clamped_end bu   -> forall v, @obj_eval R NumR tol (nth 1 E dflt_obj) [v] = @obj_eval R NumR tol o [@b_end R NumR bu; v]) /\
+  (b_per1 bv = 0%nat -> clamped_start bv -> forall u, @obj_eval R NumR tol (nth 2 E dflt_obj) [u] = @obj_eval R NumR tol o [u; @b_start R NumR bv]) /\
+  (b_per1 bv = 0%nat -> clamped_end bv   -> forall u, @obj_eval R NumR tol (nth 3 E dflt_obj) [u] = @obj_eval R NumR tol o [u; @b_end R NumR bv]).
+Proof.
+  intros Htol Hwf Hb E. unfold E, surface_edges.
+  repeat split; intros Hp Hc t.
+  - rewrite (sections_eval tol o (sections 2 1) 0 [t] Htol Hwf ltac:(cbn; lia)); rewrite Hb; [reflexivity|].
+    change (Forall2 sec_ok [0; 2]%nat [bu; bv]). constructor; [split; assumption|constructor; [exact I|constructor]].
+  - rewrite (sections_eval tol o (sections 2 1) 1 [t] Htol Hwf ltac:(cbn; lia)); rewrite Hb; [reflexivity|].
+    change (Forall2 sec_ok [1; 2]%nat [bu; bv]). constructor; [split; assumption|constructor; [exact I|constructor]].
+  - rewrite (sections_eval tol o (sections 2 1) 2 [t] Htol Hwf ltac:(cbn; lia)); rewrite Hb; [reflexivity|].
+    change (Forall2 sec_ok [2; 0]%nat [bu; bv]). constructor; [exact I|constructor; [split; assumption|constructor]].
+  - rewrite (sections_eval tol o (sections 2 1) 3 [t] Htol Hwf ltac:(cbn; lia)); rewrite Hb; [reflexivity|].
+    change (Forall2 sec_ok [2; 1]%nat [bu; bv]). constructor; [exact I|constructor; [split; assumption|constructor]].
+Qed.
+
+(* Volume.faces(), entry by entry; the two faces of a periodic direction are None *)
+Theorem volume_faces_eval tol (o : obj R) bu bv bw :
+  0 < tol -> wf_obj_R tol o -> o_bases o = [bu; bv; bw] ->
+  let F := volume_faces o in
+  (b_per1 bu = 0%nat -> clamped_start bu -> exists f, nth 0 F None = Some f /\
+     forall v w, @obj_eval R NumR tol f [v; w] = @obj_eval R NumR tol o [@b_start R NumR bu; v; w]) /\
+  (b_per1 bu = 0%nat -> clamped_end bu -> exists f, nth 1 F None = Some f /\
+     forall v w, @obj_eval R NumR tol f [v; w] = @obj_eval R NumR tol o [@b_end R NumR bu; v; w]) /\
+  (b_per1 bv = 0%nat -> clamped_start bv -> exists f, nth 2 F None = Some f /\
+     forall u w, @obj_eval R NumR tol f [u; w] = @obj_eval R NumR tol o [u; @b_start R NumR bv; w]) /\
+  (b_per1 bv = 0%nat -> clamped_end bv -> exists f, nth 3 F None = Some f /\
+     forall u w, @obj_eval R NumR tol f [u; w] = @obj_eval R NumR tol o [u; @b_end R NumR bv; w]) /\
+  (b_per1 bw = 0%nat -> clamped_start bw -> exists f, nth 4 F None = Some f /\
+     forall u v, @obj_eval R NumR tol f [u; v] = @obj_eval R NumR tol o [u; v; @b_start R NumR bw]) /\
+  (b_per1 bw = 0%nat -> clamped_end bw -> exists f, nth 5 F None = Some f /\
+     forall u v, @obj_eval R NumR tol f [u; v] = @obj_eval R NumR tol o [u; v; @b_end R NumR bw]) /\
+  (b_per1 bu <> 0%nat -> nth 0 F None = None /\ nth 1 F None = None) /\
+  (b_per1 bv <> 0%nat -> nth 2 F None = None /\ nth 3 F None = None) /\
+  (b_per1 bw <> 0%nat -> nth 4 F None = None /\ nth 5 F None = None) /\
+  length F = 6%nat.
+Proof.
+  intros Htol Hwf Hb F.
+  assert (E : F = [ (if (b_per1 bu =? 0)%nat then Some (@obj_section R NumR o [0;2;2]%nat) else None);
+                    (if (b_per1 bu =? 0)%nat then Some (@obj_section R NumR o [1;2;2]%nat) else None);
+                    (if (b_per1 bv =? 0)%nat then Some (@obj_section R NumR o [2;0;2]%nat) else None);
+                    (if (b_per1 bv =? 0)%nat then Some (@obj_section R NumR o [2;1;2]%nat) else None);
+                    (if (b_per1 bw =? 0)%nat then Some (@obj_section R NumR o [2;2;0]%nat) else None);
+                    (if (b_per1 bw =? 0)%nat then Some (@obj_section R NumR o [2;2;1]%nat) else None) ]).
+  { unfold F, volume_faces. rewrite Hb. reflexivity. }
+  rewrite E. cbn [nth length].
+  assert (S : forall sel, Forall2 sec_ok sel [bu; bv; bw] -> forall ts,
+            @obj_eval R NumR tol (@obj_section R NumR o sel) ts = @obj_eval R NumR tol o (sec_fill sel [bu; bv; bw] ts)).
+  { intros sel Hs ts. rewrite <- Hb. apply section_eval; [exact Htol|exact Hwf|rewrite Hb; exact Hs]. }
+  assert (T : forall (b : basis R) sel full, b_per1 b = 0%nat -> Forall2 sec_ok sel [bu; bv; bw] ->
+            (forall a c, sec_fill sel [bu; bv; bw] [a; c] = full a c) ->
+            exists f, (if (b_per1 b =? 0)%nat then Some (@obj_section R NumR o sel) else None) = Some f /\
+              forall a c, @obj_eval R NumR tol f [a; c] = @obj_eval R NumR tol o (full a c)).
+  { intros b sel full Hp Hs Hf. rewrite Hp. cbn [Nat.eqb]. eexists. split; [reflexivity|]. intros a c. rewrite S by exact Hs. rewrite Hf. reflexivity. }
+  assert (Nn : forall (b : basis R) (x : option (obj R)), b_per1 b <> 0%nat -> (if (b_per1 b =? 0)%nat then x else None) = None).
+  { intros b x Hne. destruct (Nat.eqb_spec (b_per1 b) 0); [contradiction|reflexivity]. }
+  split; [intros Hp Hc; apply (T bu [0;2;2]%nat (fun v w => [@b_start R NumR bu; v; w]) Hp); [|intros; reflexivity];
+          constructor; [split; assumption|]; constructor; [exact I|]; constructor; [exact I|constructor]|].
+  split; [intros Hp Hc; apply (T bu [1;2;2]%nat (fun v w => [@b_end R NumR bu; v; w]) Hp); [|intros; reflexivity];
+          constructor; [split; assumption|]; constructor; [exact I|]; constructor; [exact I|constructor]|].
+  split; [intros Hp Hc; apply (T bv [2;0;2]%nat (fun u w => [u; @b_start R NumR bv; w]) Hp); [|intros; reflexivity];
+          constructor; [exact I|]; constructor; [split; assumption|]; constructor; [exact I|constructor]|].
+  split; [intros Hp Hc; apply (T bv [2;1;2]%nat (fun u w => [u; @b_end R NumR bv; w]) Hp); [|intros; reflexivity];
+          constructor; [exact I|]; constructor; [split; assumption|]; constructor; [exact I|constructor]|].
+  split; [intros Hp Hc; apply (T bw [2;2;0]%nat (fun u v => [u; v; @b_start R NumR bw]) Hp); [|intros; reflexivity];
+          constructor; [exact I|]; constructor; [exact I|]; constructor; [split; assumption|constructor]|].
+  split; [intros Hp Hc; apply (T bw [2;2;1]%nat (fun u v => [u; v; @b_end R NumR bw]) Hp); [|intros; reflexivity];
+          constructor; [exact I|]; constructor; [exact I|]; constructor; [split; assumption|constructor]|].
+  split; [intros Hne; split; apply Nn; exact Hne|].
+  split; [intros Hne; split; apply Nn; exact Hne|].
+  split; [intros Hne; split; apply Nn; exact Hne|reflexivity].
+Qed.
+
+(* Volume.edges(): entry i is the restriction to the two pinned ends listed in volume_edges_order *)
+Theorem volume_edges_eval tol (o : obj R) i ts :
+  0 < tol -> wf_obj_R tol o -> (i < 12)%nat -> Forall2 sec_ok (nth i (sections 3 1) []) (o_bases o) ->
+  @obj_eval R NumR tol (nth i (volume_edges o) dflt_obj) ts
+  = @obj_eval R NumR tol o (sec_fill (nth i (sections 3 1) []) (o_bases o) ts).
+Proof. intros Htol Hwf Hi Hs. apply sections_eval; [exact Htol|exact Hwf|exact Hi|exact Hs]. Qed.
+
+(* e.g. entry 1 = (umax, vmin), entry 10 = (vmin, wmax) *)
+Corollary volume_edges_eval_1_10 tol (o : obj R) bu bv bw :
+  0 < tol -> wf_obj_R tol o -> o_bases o = [bu; bv; bw] -> open_dir bu -> open_dir bv -> open_dir bw ->
+  (forall w, @obj_eval R NumR tol (nth 1 (volume_edges o) dflt_obj) [w] = @obj_eval R NumR tol o [@b_end R NumR bu; @b_start R NumR bv; w]) /\
+  (forall u, @obj_eval R NumR tol (nth 10 (volume_edges o) dflt_obj) [u] = @obj_eval R NumR tol o [u; @b_start R NumR bv; @b_end R NumR bw]).
+Proof.
+  intros Htol Hwf Hb (Pu & Su & Eu) (Pv & Sv & Ev) (Pw & Sw & Ew). split; intros t.
+  - rewrite (volume_edges_eval tol o 1 [t] Htol Hwf ltac:(lia)); rewrite Hb; [reflexivity|].
+    change (Forall2 sec_ok [1; 0; 2]%nat [bu; bv; bw]).
+    constructor; [split; assumption|]. constructor; [split; assumption|]. constructor; [exact I|constructor].
+  - rewrite (volume_edges_eval tol o 10 [t] Htol Hwf ltac:(lia)); rewrite Hb; [reflexivity|].
+    change (Forall2 sec_ok [2; 0; 1]%nat [bu; bv; bw]).
+    constructor; [exact I|]. constructor; [split; assumption|]. constructor; [split; assumption|constructor].
+Qed.
+
+(* corners(): entry i is the control point at the i-th corner (first direction fastest), and the object evaluates to
+   it (divided by the weight when rational) at the corresponding corner of the parameter domain *)
+Lemma sections_corners_ok n : (n <= 3)%nat -> Forall (fun sel => length sel = n /\ all_pinned sel) (sections n 0).
+Proof.
+  intros Hn. destruct n as [|[|[|[|n]]]]; try lia; unfold all_pinned;
+    repeat (constructor; [split; [reflexivity|repeat (constructor; [(left; reflexivity) || (right; reflexivity)|])]; constructor|]); constructor.
+Qed.
+
+Lemma open_sec_ok : forall sel (bs : list (basis R)), length sel = length bs -> all_pinned sel -> Forall open_dir bs -> Forall2 sec_ok sel bs.
+Proof.
+  induction sel as [|s sel IH]; intros bs Hl Hp Ho; destruct bs as [|b bs]; try (cbn in Hl; lia); [constructor|].
+  inversion Hp as [|? ? Hs Hp']; subst. inversion Ho as [|? ? (P & S & E) Ho']; subst.
+  constructor; [|apply IH; [cbn in Hl; lia|exact Hp'|exact Ho']].
+  destruct Hs as [-> | ->]; unfold sec_ok; cbn [Nat.eqb]; split; assumption.
+Qed.
+
+Theorem corners_eval tol (o : obj R) i :
+  0 < tol -> wf_obj_R tol o -> (@o_pardim R o <= 3)%nat -> (i < length (sections (@o_pardim R o) 0))%nat ->
+  let sel := nth i (sections (@o_pardim R o) 0) [] in
+  let P := nth i (obj_corners o) [] in
+  P = nth (corner_flat sel (@o_shape R o)) (o_cps o) [] /\
+  (Forall open_dir (o_bases o) ->
+   @obj_eval R NumR tol o (sec_fill sel (o_bases o) []) = Ok (if o_rat o then @project_rat R NumR (o_dim o) P else P)).
+Proof.
+  intros Htol Hwf Hn Hi sel P.
+  pose proof (sections_corners_ok (@o_pardim R o) Hn) as Hall. rewrite Forall_forall in Hall.
+  destruct (Hall sel (nth_In _ _ Hi)) as [Hl Hp]. unfold o_pardim in Hl.
+  destruct (section_corner_cps tol o sel Hwf Hl Hp) as (_ & Hc & _).
+  assert (EP : P = nth (corner_flat sel (@o_shape R o)) (o_cps o) []).
+  { unfold P, obj_corners. rewrite (nth_indep _ [] (hd [] (o_cps (@obj_section R NumR o [])))) by (rewrite map_length; exact Hi).
+    rewrite (map_nth (fun s => hd [] (o_cps (@obj_section R NumR o s)))). fold sel. rewrite Hc. reflexivity. }
+  split; [exact EP|]. intros Ho. rewrite EP.
+  apply (section_corner tol o sel Htol Hwf (open_sec_ok sel (o_bases o) Hl Hp Ho) Hp).
+Qed.
+
+(* ====================================================================================================== *)
+(* 5. extrude: the bottom of the extruded net is the profile                                             *)
+(* ====================================================================================================== *)
+(* surface_factory.extrude:  cp[:n, :] = curve.controlpoints (bottom); curve += amount; cp[n:, :] = curve.controlpoints (top);
+   return Surface(curve.bases[0], BSplineBasis(2), cp, curve.rational).
+   The model has the net only (Model/Factory.v extrude_cps, in the order of the cp array above: extrusion index slow,
+   profile index fast); there is no object-level extrude in the model, so the statement is at net level. *)
+Theorem extrude_bottom_is_profile dim rat (amount : list R) (prof : list (list R)) :
+  firstn (length prof) (@extrude_cps R NumR dim rat amount prof) = prof /\
+  length (@extrude_cps R NumR dim rat amount prof) = (2 * length prof)%nat /\
+  forall j, (j < length prof)%nat -> nth j (@extrude_cps R NumR dim rat amount prof) [] = nth j prof [].
+Proof.
+  unfold extrude_cps. split; [|split].
+  - rewrite firstn_app, Nat.sub_diag, firstn_all. cbn [firstn]. apply app_nil_r.
+  - rewrite app_length, map_length. lia.
+  - intros j Hj. apply app_nth1. exact Hj.
+Qed.
+
+(* ====================================================================================================== *)
+(* 6. Surface.const_par_curve (Model/ConstPar.v), non-periodic direction                                  *)
+(* ====================================================================================================== *)
+(* ---------- row relations compose under the model's matmul; the identity ---------- *)
+Lemma row_rel_mat N N' C : row_rel N N' C -> mat (length N') (length N) C.
+Proof. intros (A & B & _). split; assumption. Qed.
+
+Lemma row_rel_matmul N N1 N2 C1 C2 : (0 < length N1)%nat -> row_rel N N1 C1 -> row_rel N1 N2 C2 ->
+  row_rel N N2 (@matmul R NumR C2 C1).
+Proof.
+  intros Hpos R1 R2. pose proof (row_rel_mat _ _ _ R1) as M1. pose proof (row_rel_mat _ _ _ R2) as M2.
+  pose proof (matmul_mat _ _ _ C2 C1 M2 M1 Hpos) as [ML MF].
+  destruct R1 as (_ & _ & E1). destruct R2 as (_ & _ & E2).
+  split; [exact ML|]. split; [exact MF|].
+  intros j Hj. rewrite (E1 j Hj).
+  rewrite (sumf_ext _ (fun l => sumf (fun r => nth r N2 0 * (ment C2 r l * ment C1 l j)) 0 (length N2))).
+  2:{ intros l Hl. rewrite (E2 l ltac:(lia)). rewrite Rmult_comm, <- sumf_scal. apply sumf_ext. intros r _. unfold ment. ring. }
+  rewrite sumf_exchange. apply sumf_ext. intros r Hr.
+  change (nth j (nth r (@matmul R NumR C2 C1) []) 0) with (ment (@matmul R NumR C2 C1) r j).
+  rewrite (matmul_ent _ _ _ C2 C1 r j M2 M1 Hpos ltac:(lia) Hj).
+  rewrite <- sumf_scal. reflexivity.
+Qed.
+
+Lemma row_rel_ident N : row_rel N N (@ident R NumR (length N)).
+Proof.
+  destruct (ident_mat (length N)) as [IL IF]. split; [exact IL|]. split; [exact IF|].
+  intros j Hj. rewrite (sumf_ext _ (fun r => if (r =? j)%nat then nth r N 0 else 0)).
+  - symmetry. apply (sumf_pick (fun r => nth r N 0)). lia.
+  - intros r Hr. change (nth j (nth r (@ident R NumR (length N)) []) 0) with (ment (@ident R NumR (length N)) r j).
+    rewrite ident_ent by lia. destruct (r =? j)%nat; ring.
+Qed.
+
+Lemma ident_row n i : (i < n)%nat -> nth i (@ident R NumR n) [] = unit_row n i.
+Proof.
+  intros Hi. unfold ident. rewrite (nth_map_gen _ _ i [] 0%nat) by (rewrite seq_length; exact Hi). rewrite seq_nth by exact Hi.
+  unfold unit_row. apply map_ext. intros j. cbn [Nat.add n0 n1 NumR]. rewrite Nat.eqb_sym. reflexivity.
+Qed.
+
+(* if the new row is the unit row e_i, the old row is row i of the matrix *)
+Lemma row_rel_unit N n i C : row_rel N (unit_row n i) C -> (i < n)%nat -> N = nth i C [].
+Proof.
+  intros (HL & HF & HE) Hi. rewrite unit_row_length in HL, HE.
+  assert (Hrow : length (nth i C []) = length N) by (rewrite Forall_forall in HF; apply HF, nth_In; lia).
+  apply (nth_ext _ _ 0 0); [symmetry; exact Hrow|].
+  intros j Hj. rewrite (HE j Hj).
+  rewrite (sumf_ext _ (fun r => if (r =? i)%nat then nth j (nth r C []) 0 else 0)).
+  - apply (sumf_pick (fun r => nth j (nth r C []) 0)). lia.
+  - intros r Hr. rewrite unit_row_nth by lia. destruct (r =? i)%nat; ring.
+Qed.
+
+(* ---------- the insertion loop ---------- *)
+Lemma insert_start (k : list R) p x : sorted (@kn R NumR k) -> (1 <= p)%nat -> (2 * p <= length k)%nat ->
+  @kn R NumR k (p - 1) <= x < @kn R NumR k (length k - p) ->
+  let k1 := insert_at k (@py_bisect_right R NumR k x) x in
+  @kn R NumR k1 (p - 1) = @kn R NumR k (p - 1) /\ @kn R NumR k1 (length k1 - p) = @kn R NumR k (length k - p).
+Proof.
+  intros HK Hp Hlen Hx k1. destruct (mu_bracket k p x HK Hp Hlen Hx) as [Hmu Hbr]. unfold k1. split.
+  - rewrite (kn_insert_at k p _ x Hp Hmu (p - 1)%nat ltac:(lia) ltac:(lia)). apply k'_lt; lia.
+  - rewrite insert_at_length.
+    rewrite (kn_insert_at k p _ x Hp Hmu (S (length k) - p)%nat ltac:(lia) ltac:(lia)).
+    rewrite k'_gt by lia. f_equal. lia.
+Qed.
+
+Lemma cpc_insert_spec p (k0 : list R) x : forall m (k : list R) C,
+  sorted (@kn R NumR k) -> (1 <= p)%nat -> (2 * p <= length k)%nat ->
+  @kn R NumR k (p - 1) <= x < @kn R NumR k (length k - p) ->
+  (forall side t, row_rel (Brow side k0 p t) (Brow side k p t) C) ->
+  exists kf Cf, @cpc_insert R NumR m (mkBasis p k 0) x C = Ok (mkBasis p kf 0, Cf) /\
+    sorted (@kn R NumR kf) /\ length kf = (length k + m)%nat /\ Permutation kf (repeat x m ++ k) /\
+    @kn R NumR kf (p - 1) = @kn R NumR k (p - 1) /\ @kn R NumR kf (length kf - p) = @kn R NumR k (length k - p) /\
+    (forall side t, row_rel (Brow side k0 p t) (Brow side kf p t) Cf).
+Proof.
+  induction m as [|m IH]; intros k C HK Hp Hlen Hx HR.
+  - exists k, C. cbn [cpc_insert repeat app]. split; [reflexivity|]. split; [exact HK|]. split; [lia|].
+    split; [apply Permutation_refl|]. split; [reflexivity|]. split; [reflexivity|exact HR].
+  - cbn [cpc_insert]. rewrite (basis_insert_knot_nonperiodic k p x HK Hp Hlen Hx).
+    set (k1 := insert_at k (@py_bisect_right R NumR k x) x).
+    set (Ci := @mat_of_writes R NumR (length k - p + 1) (length k - p) (@insert_writes R NumR k p (length k - p) (@py_bisect_right R NumR k x) x)).
+    destruct (insert_start k p x HK Hp Hlen Hx) as [Hs1 He1]. fold k1 in Hs1, He1.
+    assert (HK1 : sorted (@kn R NumR k1)) by (apply (insert_knots_sorted k p x HK Hp Hlen Hx)).
+    assert (Hl1 : length k1 = S (length k)) by apply insert_at_length.
+    assert (HR1 : forall side t, row_rel (Brow side k p t) (Brow side k1 p t) Ci).
+    { intros side t. pose proof (row_rel_insert k p x HK Hp Hlen Hx side t) as RR.
+      unfold InsertObj.Nold, InsertObj.Nnew in RR. unfold Brow. fold k1 in RR. rewrite Hl1.
+      replace (S (length k) - p)%nat with (length k - p + 1)%nat by lia. exact RR. }
+    destruct (IH k1 (@matmul R NumR Ci C) HK1 Hp ltac:(lia) ltac:(rewrite Hs1, He1; exact Hx)) as (kf & Cf & E & A1 & A2 & A3 & A4 & A5 & A6).
+    { intros side t. apply (row_rel_matmul _ (Brow side k p t)); [unfold Brow; rewrite map_length, seq_length; lia|apply HR|apply HR1]. }
+    exists kf, Cf. split; [exact E|]. split; [exact A1|]. split; [lia|]. split.
+    + rewrite A3. cbn [repeat app]. transitivity (repeat x m ++ x :: k).
+      * apply Permutation_app_head. apply insert_at_perm.
+      * apply Permutation_sym. apply Permutation_middle.
+    + split; [rewrite A4; exact Hs1|]. split; [rewrite A5; exact He1|exact A6].
+Qed.
+
+Lemma mult_perm k1 k2 x : Permutation k1 k2 -> mult k1 x = mult k2 x.
+Proof. intros HP. unfold mult. apply Permutation_count_occ. exact HP. Qed.
+Lemma mult_repeat_app x c k : mult (repeat x c ++ k) x = (c + mult k x)%nat.
+Proof.
+  unfold mult. rewrite count_occ_app. f_equal. induction c as [|c IH]; [reflexivity|].
+  cbn [repeat]. rewrite count_occ_cons_eq by reflexivity. f_equal. exact IH.
+Qed.
+
+(* the number of iterations: order - 1 - multiplicity *)
+Lemma cpc_mult_exact p (k : list R) x c : (1 <= p)%nat ->
+  Z.to_nat ((match c with None => (Z.of_nat p - 1)%Z | Some z => z end) + 1) = (p - mult k x)%nat ->
+  @cpc_mult R (mkBasis p k 0) c = (p - 1 - mult k x)%nat.
+Proof. intros Hp Hn. unfold cpc_mult. cbn [b_order]. destruct c as [z|]; lia. Qed.
+
+(* the row of the refined basis at the knot x of multiplicity p-1: the unit row at bisect_left - 1 *)
+Lemma Brow_at_C0_knot (kf : list R) p x : sorted (@kn R NumR kf) -> (1 <= p)%nat -> (2 * p <= length kf)%nat ->
+  @kn R NumR kf (p - 1) <= x < @kn R NumR kf (length kf - p) -> mult kf x = (p - 1)%nat ->
+  let i := (@py_bisect_left R NumR kf x - 1)%nat in
+  (i < length kf - p)%nat /\ Brow true kf p x = unit_row (length kf - p) i.
+Proof.
+  intros HK Hp Hlen Hx Hm i.
+  pose proof (count_bisect kf x HK) as Hc. rewrite Hm in Hc.
+  pose proof (bisect_lr_le kf x HK) as Hle.
+  pose proof (fun j Hj => bisect_window kf x j HK Hj) as W.
+  unfold py_bisect_left, py_bisect_right in *.
+  destruct (bisect_right_spec (@kn R NumR kf) HK x (length kf)) as (B1 & B2 & B3). cbv zeta in *.
+  set (bl := @bisect_left R NumR (@kn R NumR kf) x (length kf)) in *.
+  set (br := @bisect_right R NumR (@kn R NumR kf) x (length kf)) in *.
+  assert (Hbr1 : (p <= br)%nat).
+  { destruct (Nat.le_gt_cases p br) as [L|L]; [exact L|]. pose proof (B3 (p - 1)%nat ltac:(lia)). lra. }
+  assert (Hbr2 : (br <= length kf - p)%nat).
+  { destruct (Nat.le_gt_cases br (length kf - p)) as [L|L]; [exact L|]. pose proof (B2 (length kf - p)%nat L). lra. }
+  assert (Ei : i = (br - 1 - (p - 1))%nat) by (unfold i; lia).
+  split; [lia|]. rewrite Ei.
+  apply (Brow_full_mult_right kf p (br - 1) x HK Hp).
+  - split; [apply B2; lia|]. replace (S (br - 1)) with br by lia. apply B3. lia.
+  - lia.
+  - intros j Hj. apply (W j ltac:(lia)). lia.
+Qed.
+
+Lemma knot_sep_snap (k : list R) tol x : sorted (@kn R NumR k) -> 0 < tol -> knot_sep tol k x -> @snap1 R NumR k tol x = x.
+Proof.
+  intros HK Htol Hsep. destruct (In_dec Req_EM_T x k) as [Hin|Hnin]; [apply snap1_member; assumption|].
+  apply snap1_far_all; [exact HK|exact Htol|]. intros v Hv.
+  destruct (Hsep v Hv) as [E|[L|L]]; [subst v; contradiction| |]; unfold Rabs; destruct (Rcase_abs (v - x)); lra.
+Qed.
+
+(* the parameter tuple of the surface on the line "direction d = x": (x, s) resp. (s, x) *)
+Definition cpc_params (d : nat) (x s : R) : list R := if (d =? 0)%nat then [x; s] else [s; x].
+Definition cpc_pins (d : nat) (x : R) (row : list R) : list pin :=
+  if (d =? 0)%nat then [Some (x, row); None] else [None; Some (x, row)].
+
+Section ConstPar.
+Variable tol : R.
+Hypothesis Htol : 0 < tol.
+Variable o : obj R.
+Hypothesis Hwf : wf_obj_R tol o.
+Variables bu bv : basis R.
+Hypothesis Hb : o_bases o = [bu; bv].
+Variable d : nat.
+Hypothesis Hd : (d < 2)%nat.
+Variable p : nat.
+Variable k : list R.
+Hypothesis Hbd : nth d [bu; bv] dflt_basis = mkBasis p k 0.
+Variable x : R.
+Local Notation bd := (@mkBasis R p k 0).
+Local Notation n := (length k - p)%nat.
+
+Lemma cpc_bd_wf : wf_basis_R tol bd.
+Proof.
+  destruct Hwf as (HB & _). rewrite Hb in HB. rewrite Forall_forall in HB. rewrite <- Hbd. apply HB.
+  apply nth_In. cbn [length]. exact Hd.
+Qed.
+
+Lemma cpc_shape_d : nth d (@o_shape R o) 0%nat = n.
+Proof.
+  unfold o_shape. rewrite Hb. rewrite (nth_map_gen _ _ d 0%nat dflt_basis) by (cbn [length]; exact Hd).
+  rewrite Hbd. unfold b_nfun. cbn [b_knots b_order b_per1]. lia.
+Qed.
+
+(* assembling: whatever the loop returned, if the selected row is the row of basis values at x *)
+Lemma cpc_assemble c (b' : basis R) (C : list (list R)) :
+  @basis_continuity R NumR tol bd x = Ok c ->
+  @cpc_insert R NumR (@cpc_mult R bd c) bd x (@ident R NumR n) = Ok (b', C) ->
+  b_per1 b' = 0%nat ->
+  (@py_bisect_left R NumR (b_knots b') x - 1 < length C)%nat ->
+  pin_ok tol (Some (x, nth (@py_bisect_left R NumR (b_knots b') x - 1) C [])) bd ->
+  exists cv, @const_par_curve R NumR tol o x d = Ok cv /\ wf_obj_R tol cv /\
+    o_bases cv = [nth (1 - d) [bu; bv] dflt_basis] /\
+    forall s, @obj_eval R NumR tol cv [s] = @obj_eval R NumR tol o (cpc_params d x s).
+Proof.
+  intros Hc Hins Hp' Hi Hpin.
+  set (i := (@py_bisect_left R NumR (b_knots b') x - 1)%nat) in *.
+  set (row := nth i C []) in *.
+  assert (Hpins : Forall2 (pin_ok tol) (cpc_pins d x row) (o_bases o)).
+  { rewrite Hb. unfold cpc_pins. destruct d as [|[|dd]]; [| |lia]; cbn [Nat.eqb nth] in *; rewrite <- Hbd in Hpin.
+    - constructor; [exact Hpin|]. constructor; [exact I|constructor].
+    - constructor; [exact I|]. constructor; [exact Hpin|constructor]. }
+  exists (pinned_obj o (cpc_pins d x row)). split; [|split; [|split]].
+  - unfold const_par_curve. cbv zeta.
+    replace (2 <=? d)%nat with false by (symmetry; apply Nat.leb_gt; exact Hd).
+    change (@mkBasis R 0 [] 0) with dflt_basis. rewrite cpc_shape_d. rewrite Hb, Hbd, Hc, Hins, Hp'. cbn [Nat.eqb].
+    fold i. replace (length C <=? i)%nat with false by (symmetry; apply Nat.leb_gt; exact Hi). fold row.
+    f_equal. unfold pinned_obj, cpc_pins. rewrite Hb.
+    destruct d as [|[|dd]]; [| |lia]; reflexivity.
+  - apply pinned_wf; assumption.
+  - unfold pinned_obj, cpc_pins. cbn [o_bases]. rewrite Hb. destruct d as [|[|dd]]; [| |lia]; reflexivity.
+  - intros s. rewrite (pinned_eval tol o Hwf _ Hpins). f_equal.
+    unfold cpc_pins, cpc_params. destruct d as [|[|dd]]; [| |lia]; reflexivity.
+Qed.
+
+Hypothesis Hsep : knot_sep tol k x.
+
+(* (a) x in [start, end) with multiplicity at most order - 1 (any interior value; also an unclamped start) *)
+Theorem cpc_interior :
+  @kn R NumR k (p - 1) <= x < @kn R NumR k (length k - p) -> (mult k x <= p - 1)%nat ->
+  exists cv, @const_par_curve R NumR tol o x d = Ok cv /\ wf_obj_R tol cv /\
+    o_bases cv = [nth (1 - d) [bu; bv] dflt_basis] /\
+    forall s, @obj_eval R NumR tol cv [s] = @obj_eval R NumR tol o (cpc_params d x s).
+Proof.
+  intros Hx Hm. pose proof cpc_bd_wf as Hbw. pose proof Hbw as (HK & Hp & Hlen & Hn & Hw).
+  cbn [b_knots b_order] in HK, Hp, Hlen. unfold b_start, b_end in Hw. cbn [b_knots b_order] in Hw.
+  destruct (continuity_exact tol k p x HK Htol Hsep ltac:(lra)) as (c & Hc & Hcn).
+  pose proof (cpc_mult_exact p k x c Hp Hcn) as Hmult.
+  destruct (cpc_insert_spec p k x (p - 1 - mult k x) k (@ident R NumR n) HK Hp Hlen Hx) as (kf & Cf & E & A1 & A2 & A3 & A4 & A5 & A6).
+  { intros side t. pose proof (row_rel_ident (Brow side k p t)) as RI.
+    unfold Brow in RI at 3. rewrite map_length, seq_length in RI. exact RI. }
+  assert (Hmf : mult kf x = (p - 1)%nat).
+  { rewrite (mult_perm _ _ x A3), mult_repeat_app. lia. }
+  destruct (Brow_at_C0_knot kf p x A1 Hp ltac:(lia) ltac:(rewrite A4, A5; exact Hx) Hmf) as (Hi & Hrow).
+  set (i := (@py_bisect_left R NumR kf x - 1)%nat) in *.
+  pose proof (A6 true x) as RR. rewrite Hrow in RR.
+  pose proof (row_rel_unit _ _ _ _ RR Hi) as Erow.
+  assert (HlC : length Cf = (length kf - p)%nat).
+  { destruct RR as (HL & _). rewrite HL, unit_row_length. reflexivity. }
+  apply (cpc_assemble c (mkBasis p kf 0) Cf Hc).
+  - rewrite Hmult. exact E.
+  - reflexivity.
+  - cbn [b_knots]. fold i. rewrite HlC. exact Hi.
+  - cbn [b_knots]. fold i. apply pin_ok_intro; [exact Htol|exact Hbw|apply knot_sep_snap; assumption|lra|].
+    assert (Hend : In (@kn R NumR k (length k - p)) k) by (apply kn_In'; lia).
+    destruct (Rltb_spec (Rabs (x - @kn R NumR k (length k - p))) tol) as [A|A]; [|exact Erow].
+    exfalso. destruct (Hsep _ Hend) as [Q|[Q|Q]]; [lra|lra|]. rewrite Rabs_left1 in A by lra. lra.
+Qed.
+
+(* (b) x = start of a clamped direction: no insertion, first row of the identity *)
+Theorem cpc_start :
+  x = @kn R NumR k (p - 1) -> clamped_start bd ->
+  exists cv, @const_par_curve R NumR tol o x d = Ok cv /\ wf_obj_R tol cv /\
+    o_bases cv = [nth (1 - d) [bu; bv] dflt_basis] /\
+    forall s, @obj_eval R NumR tol cv [s] = @obj_eval R NumR tol o (cpc_params d x s).
+Proof.
+  intros Hx Hcl. pose proof cpc_bd_wf as Hbw. pose proof Hbw as (HK & Hp & Hlen & Hn & Hw).
+  cbn [b_knots b_order] in HK, Hp, Hlen. unfold b_start, b_end in Hw. cbn [b_knots b_order] in Hw.
+  unfold b_nfun in Hn. cbn [b_knots b_order b_per1] in Hn.
+  destruct (continuity_exact tol k p x HK Htol Hsep ltac:(lra)) as (c & Hc & Hcn).
+  pose proof (cpc_mult_exact p k x c Hp Hcn) as Hmult.
+  pose proof (start_pin_ok tol bd Htol Hbw eq_refl Hcl) as Hpin.
+  destruct Hcl as [Hm Hlt]. unfold b_start in Hm, Hlt, Hpin. unfold b_nfun in Hpin. cbn [b_knots b_order b_per1] in Hm, Hlt, Hpin.
+  pose proof (fun j Hj => bisect_window k x j HK Hj) as W.
+  pose proof (count_bisect k x HK) as Hcb.
+  assert (W0 : (@py_bisect_left R NumR k x <= 0 < @py_bisect_right R NumR k x)%nat) by (apply W; [lia|rewrite Hx; apply Hm; lia]).
+  assert (W1 : (@py_bisect_left R NumR k x <= p - 1 < @py_bisect_right R NumR k x)%nat) by (apply W; [lia|rewrite Hx; reflexivity]).
+  assert (Hm0 : (p - 1 - mult k x = 0)%nat) by lia.
+  apply (cpc_assemble c bd (@ident R NumR n) Hc).
+  - rewrite Hmult, Hm0. reflexivity.
+  - reflexivity.
+  - cbn [b_knots]. destruct (ident_mat n) as [IL _]. rewrite IL. lia.
+  - cbn [b_knots]. replace (@py_bisect_left R NumR k x - 1)%nat with 0%nat by lia.
+    rewrite ident_row by lia. rewrite Hx. replace (length k - p - 0)%nat with n in Hpin by lia. exact Hpin.
+Qed.
+
+(* (c) x = end of a clamped direction: no insertion, last row of the identity *)
+Theorem cpc_end :
+  x = @kn R NumR k (length k - p) -> clamped_end bd ->
+  exists cv, @const_par_curve R NumR tol o x d = Ok cv /\ wf_obj_R tol cv /\
+    o_bases cv = [nth (1 - d) [bu; bv] dflt_basis] /\
+    forall s, @obj_eval R NumR tol cv [s] = @obj_eval R NumR tol o (cpc_params d x s).
+Proof.
+  intros Hx Hcl. pose proof cpc_bd_wf as Hbw. pose proof Hbw as (HK & Hp & Hlen & Hn & Hw).
+  cbn [b_knots b_order] in HK, Hp, Hlen. unfold b_start, b_end in Hw. cbn [b_knots b_order] in Hw.
+  unfold b_nfun in Hn. cbn [b_knots b_order b_per1] in Hn.
+  destruct (continuity_exact tol k p x HK Htol Hsep ltac:(lra)) as (c & Hc & Hcn).
+  pose proof (cpc_mult_exact p k x c Hp Hcn) as Hmult.
+  pose proof (end_pin_ok tol bd Htol Hbw eq_refl Hcl) as Hpin.
+  destruct Hcl as [Hm Hlt]. unfold b_end in Hm, Hlt, Hpin. unfold b_nfun in Hpin. cbn [b_knots b_order b_per1] in Hm, Hlt, Hpin. cbv zeta in Hm, Hlt.
+  pose proof (fun j Hj => bisect_window k x j HK Hj) as W.
+  pose proof (count_bisect k x HK) as Hcb.
+  assert (W0 : (@py_bisect_left R NumR k x <= n < @py_bisect_right R NumR k x)%nat) by (apply W; [lia|rewrite Hx; reflexivity]).
+  assert (W1 : (@py_bisect_left R NumR k x <= n + p - 1 < @py_bisect_right R NumR k x)%nat) by (apply W; [lia|rewrite Hx; apply Hm; lia]).
+  assert (W2 : (n <= @py_bisect_left R NumR k x)%nat).
+  { destruct (Nat.le_gt_cases n (@py_bisect_left R NumR k x)) as [L|L]; [exact L|].
+    assert (Q : @kn R NumR k (n - 1) = x) by (apply (W (n - 1)%nat ltac:(lia)); lia). rewrite Hx in Q. lra. }
+  assert (Hm0 : (p - 1 - mult k x = 0)%nat) by lia.
+  apply (cpc_assemble c bd (@ident R NumR n) Hc).
+  - rewrite Hmult, Hm0. reflexivity.
+  - reflexivity.
+  - cbn [b_knots]. destruct (ident_mat n) as [IL _]. rewrite IL. lia.
+  - cbn [b_knots]. replace (@py_bisect_left R NumR k x - 1)%nat with (n - 1)%nat by lia.
+    rewrite ident_row by lia. rewrite Hx. replace (length k - p - 0)%nat with n in Hpin by lia. exact Hpin.
+Qed.
+End ConstPar.
+
+(* 4. MAIN THEOREM for const_par_curve, non-periodic direction: at every value x of the domain that is an exact knot
+   value or at distance >= tol from every knot (knot_sep: within the tolerance, continuity() counts the neighbouring
+   knot and evaluate() moves x onto it), of multiplicity <= order-1 inside (a knot of multiplicity = order makes
+   the surface discontinuous across that line) or at a clamped end: const_par_curve succeeds, returns a well-formed
+   curve on the basis of the other direction, and the curve at s is the surface at (x, s) resp. (s, x) *)
+Theorem const_par_curve_eval tol (o : obj R) bu bv d x :
+  0 < tol -> wf_obj_R tol o -> o_bases o = [bu; bv] -> (d < 2)%nat ->
+  let b := nth d [bu; bv] dflt_basis in
+  b_per1 b = 0%nat -> knot_sep tol (b_knots b) x ->
+  ((@b_start R NumR b <= x < @b_end R NumR b /\ (mult (b_knots b) x <= b_order b - 1)%nat) \/
+   (x = @b_start R NumR b /\ clamped_start b) \/ (x = @b_end R NumR b /\ clamped_end b)) ->
+  exists cv, @const_par_curve R NumR tol o x d = Ok cv /\ wf_obj_R tol cv /\
+    o_bases cv = [nth (1 - d) [bu; bv] dflt_basis] /\
+    forall s, @obj_eval R NumR tol cv [s] = @obj_eval R NumR tol o (cpc_params d x s).
+Proof.
+  intros Htol Hwf Hb Hd b Hper Hsep Hcase.
+  assert (Hbd : nth d [bu; bv] dflt_basis = mkBasis (b_order b) (b_knots b) 0).
+  { fold b. destruct b as [pp kk per]. cbn [b_per1 b_order b_knots] in *. rewrite Hper. reflexivity. }
+  destruct Hcase as [[Hx Hm]|[[Hx Hc]|[Hx Hc]]].
+  - apply (cpc_interior tol Htol o Hwf bu bv Hb d Hd (b_order b) (b_knots b) Hbd x Hsep Hx Hm).
+  - apply (cpc_start tol Htol o Hwf bu bv Hb d Hd (b_order b) (b_knots b) Hbd x Hsep Hx). fold b in Hbd. rewrite <- Hbd. exact Hc.
+  - apply (cpc_end tol Htol o Hwf bu bv Hb d Hd (b_order b) (b_knots b) Hbd x Hsep Hx). fold b in Hbd. rewrite <- Hbd. exact Hc.
+Qed.
+
+(* ====================================================================================================== *)
+(* 7. The hypotheses are satisfiable: order 3 x order 2 surface on the open knot vectors                  *)
+(*    [0,0,0,1,2,2,2] x [0,0,1,1] (4 x 2 control points), tol = 1/100                                    *)
+(* ====================================================================================================== *)
+Section Example.
+Let ku : list R := [0;0;0;1;2;2;2].
+Let kv : list R := [0;0;1;1].
+Let bu := @mkBasis R 3 ku 0.
+Let bv := @mkBasis R 2 kv 0.
+Let o := @mkObj R [bu; bv] [[0;0]; [0;1]; [1;0]; [1;2]; [2;1]; [2;3]; [4;0]; [4;1]] 2 false.
+Let tol := 1/100.
+
+Lemma ex_ku_sorted : sorted (@kn R NumR ku).
+Proof.
+  apply kn_sorted. unfold ku. cbn [sorted_list nleb NumR].
+  repeat (match goal with |- context [Rleb ?a ?b] => destruct (Rleb_spec a b); [|lra] end). reflexivity.
+Qed.
+Lemma ex_kv_sorted : sorted (@kn R NumR kv).
+Proof.
+  apply kn_sorted. unfold kv. cbn [sorted_list nleb NumR].
+  repeat (match goal with |- context [Rleb ?a ?b] => destruct (Rleb_spec a b); [|lra] end). reflexivity.
+Qed.
+
+Lemma ex_wf : wf_obj_R tol o.
+Proof.
+  split; [|split].
+  - constructor; [|constructor; [|constructor]].
+    + split; [exact ex_ku_sorted|]. unfold bu, ku. cbn [b_order b_knots]. split; [lia|]. split; [cbn; lia|]. split; [cbn; lia|].
+      unfold b_start, b_end, tol. cbn. lra.
+    + split; [exact ex_kv_sorted|]. unfold bv, kv. cbn [b_order b_knots]. split; [lia|]. split; [cbn; lia|]. split; [cbn; lia|].
+      unfold b_start, b_end, tol. cbn. lra.
+  - repeat constructor.
+  - reflexivity.
+Qed.
+
+Lemma ex_open_u : open_dir bu.
+Proof.
+  unfold open_dir, clamped_start, clamped_end, b_start, b_end, bu, ku. cbn [b_per1 b_order b_knots]. cbv zeta.
+  split; [reflexivity|]. split; (split; [intros j Hj; cbn in Hj|cbn; lra]).
+  - do 3 (destruct j as [|j]; [reflexivity|]). lia.
+  - do 4 (destruct j as [|j]; [lia|]). do 3 (destruct j as [|j]; [reflexivity|]). lia.
+Qed.
+Lemma ex_open_v : open_dir bv.
+Proof.
+  unfold open_dir, clamped_start, clamped_end, b_start, b_end, bv, kv. cbn [b_per1 b_order b_knots]. cbv zeta.
+  split; [reflexivity|]. split; (split; [intros j Hj; cbn in Hj|cbn; lra]).
+  - do 2 (destruct j as [|j]; [reflexivity|]). lia.
+  - do 2 (destruct j as [|j]; [lia|]). do 2 (destruct j as [|j]; [reflexivity|]). lia.
+Qed.
+
+(* the four edges, in the documented order *)
+Theorem example_edges :
+  let E := surface_edges o in
+  (forall v, @obj_eval R NumR tol (nth 0 E dflt_obj) [v] = @obj_eval R NumR tol o [0; v]) /\
+  (forall v, @obj_eval R NumR tol (nth 1 E dflt_obj) [v] = @obj_eval R NumR tol o [2; v]) /\
+  (forall u, @obj_eval R NumR tol (nth 2 E dflt_obj) [u] = @obj_eval R NumR tol o [u; 0]) /\
+  (forall u, @obj_eval R NumR tol (nth 3 E dflt_obj) [u] = @obj_eval R NumR tol o [u; 1]).
+Proof.
+  destruct ex_open_u as (Pu & Su & Eu). destruct ex_open_v as (Pv & Sv & Ev).
+  destruct (surface_edges_eval tol o bu bv ltac:(unfold tol; lra) ex_wf eq_refl) as (A & B & C & D).
+  cbv zeta. split; [exact (A Pu Su)|]. split; [exact (B Pu Eu)|]. split; [exact (C Pv Sv)|exact (D Pv Ev)].
+Qed.
+
+(* the corner (umax, vmin) = entry 1 of corners() is the control point with flat index 6 = (3, 0), and the surface
+   evaluates to it at (2, 0) *)
+Theorem example_corner :
+  nth 1 (obj_corners o) [] = [4; 0] /\ @obj_eval R NumR tol o [2; 0] = Ok [4; 0].
+Proof.
+  destruct (corners_eval tol o 1 ltac:(unfold tol; lra) ex_wf ltac:(cbn; lia) ltac:(cbn; lia)) as [A B].
+  split; [rewrite A; reflexivity|].
+  specialize (B ltac:(constructor; [exact ex_open_u|constructor; [exact ex_open_v|constructor]])).
+  rewrite A in B. exact B.
+Qed.
+
+Lemma ex_sep_u x : x = 1 \/ x = 1/2 \/ x = 0 \/ x = 2 -> knot_sep tol ku x.
+Proof.
+  intros Hx. unfold knot_sep, tol, ku. intros v Hv. cbn [In] in Hv.
+  repeat (destruct Hv as [<-|Hv]; [destruct Hx as [-> | [-> | [-> | ->]]]; lra|]). destruct Hv.
+Qed.
+
+(* constant-parameter curves: at the simple knot u = 1 (one insertion), at the new value u = 1/2 (two insertions),
+   at the two ends u = 0, u = 2 (none), and in the other direction at v = 1/3 (one insertion) *)
+Theorem example_const_par :
+  (forall x, x = 1 \/ x = 1/2 \/ x = 0 \/ x = 2 ->
+     exists cv, @const_par_curve R NumR tol o x 0 = Ok cv /\ wf_obj_R tol cv /\
+       forall s, @obj_eval R NumR tol cv [s] = @obj_eval R NumR tol o [x; s]) /\
+  (exists cv, @const_par_curve R NumR tol o (1/3) 1 = Ok cv /\ wf_obj_R tol cv /\
+       forall s, @obj_eval R NumR tol cv [s] = @obj_eval R NumR tol o [s; 1/3]).
+Proof.
+  assert (Htol : 0 < tol) by (unfold tol; lra).
+  split.
+  - intros x Hx.
+    destruct (const_par_curve_eval tol o bu bv 0 x Htol ex_wf eq_refl ltac:(lia) eq_refl (ex_sep_u x Hx)) as (cv & A & B & _ & C).
+    + cbn [nth]. destruct ex_open_u as (_ & Su & Eu).
+      destruct Hx as [-> | [-> | [-> | ->]]].
+      * left. split; [unfold b_start, b_end; cbn; lra|]. unfold mult, bu, ku. cbn [b_knots b_order count_occ].
+        repeat (match goal with |- context [Req_EM_T ?a ?b] => destruct (Req_EM_T a b); [try lra|try lra] end); lia.
+      * left. split; [unfold b_start, b_end; cbn; lra|]. unfold mult, bu, ku. cbn [b_knots b_order count_occ].
+        repeat (match goal with |- context [Req_EM_T ?a ?b] => destruct (Req_EM_T a b); [try lra|try lra] end); lia.
+      * right. left. split; [reflexivity|exact Su].
+      * right. right. split; [reflexivity|exact Eu].
+    + exists cv. split; [exact A|]. split; [exact B|exact C].
+  - destruct (const_par_curve_eval tol o bu bv 1 (1/3) Htol ex_wf eq_refl ltac:(lia) eq_refl) as (cv & A & B & _ & C).
+    + cbn [nth]. unfold knot_sep, tol, bv, kv. cbn [b_knots]. intros v Hv. cbn [In] in Hv.
+      repeat (destruct Hv as [<-|Hv]; [lra|]). destruct Hv.
+    + cbn [nth]. left. split; [unfold b_start, b_end; cbn; lra|]. unfold mult, bv, kv. cbn [b_knots b_order count_occ].
+      repeat (match goal with |- context [Req_EM_T ?a ?b] => destruct (Req_EM_T a b); [try lra|try lra] end); lia.
+    + exists cv. split; [exact A|]. split; [exact B|exact C].
+Qed.
+End Example.
+
+(* the same surface on Q, executed: const_par_curve at u = 1/2 and at v = 1/3, against obj_eval of the surface *)
+Example const_par_curve_exec :
+  let bu := q_mkBasis 3 [0; 0; 0; 1; 2; 2; 2]%Q 0 in
+  let bv := q_mkBasis 2 [0; 0; 1; 1]%Q 0 in
+  let o := q_mkObj [bu; bv] [[0;0]; [0;1]; [1;0]; [1;2]; [2;1]; [2;3]; [4;0]; [4;1]]%Q 2 false in
+  let tol := (1 # 1000000)%Q in
+  (exists c, @const_par_curve Q NumQ tol o (1 # 2)%Q 0 = Ok c /\ o_bases c = [bv] /\
+     o_cps c = [[7 # 8; 1 # 8]; [7 # 8; 15 # 8]]%Q /\ q_obj_eval tol c [1 # 3]%Q = q_obj_eval tol o [1 # 2; 1 # 3]%Q) /\
+  (exists c, @const_par_curve Q NumQ tol o (1 # 3)%Q 1 = Ok c /\ o_bases c = [bu] /\
+     o_cps c = [[0; 1 # 3]; [1; 2 # 3]; [2; 5 # 3]; [4; 1 # 3]]%Q /\ q_obj_eval tol c [3 # 2]%Q = q_obj_eval tol o [3 # 2; 1 # 3]%Q) /\
+  @const_par_curve Q NumQ tol o (1 # 2)%Q 2 = Err ValueError /\
+  @const_par_curve Q NumQ tol o 3%Q 0 = Err ValueError.
+Proof.
+  cbv zeta. split; [|split; [|split]].
+  - eexists. split; [vm_compute; reflexivity|]. vm_compute. repeat split.
+  - eexists. split; [vm_compute; reflexivity|]. vm_compute. repeat split.
+  - vm_compute. reflexivity.
+  - vm_compute. reflexivity.
+Qed.
+
+Print Assumptions pinned_eval.
+Print Assumptions section_eval_one.
+Print Assumptions section_eval.
+Print Assumptions section_wf.
+Print Assumptions section_corner_cps.
+Print Assumptions section_corner.
+Print Assumptions section_cps_slice.
+Print Assumptions surface_edges_eval.
+Print Assumptions volume_faces_eval.
+Print Assumptions volume_edges_eval.
+Print Assumptions corners_eval.
+Print Assumptions extrude_bottom_is_profile.
+Print Assumptions const_par_curve_eval.
+Print Assumptions example_edges.
+Print Assumptions example_corner.
+Print Assumptions example_const_par.
+Print Assumptions const_par_curve_exec.
